@@ -10,6 +10,19 @@
 //   capp <cut> <t> <hist>   -> <same|new|recoded> hdr=<byte> n=<num> caller=<hist>
 //   creload                 -> ok          (last chunk := FromData(bytes); Appender())
 //   cread                   -> hdr:n:t=hist;…|hdr:n:…          every chunk, oldest first
+// alias ops (the caller's histograms live in shared arrays; real appenders of all four histogram encodings):
+//   amem <st> <spans> <ints> <floats>    -> ok      the caller's arrays ([]histogram.Span, []int64, []float64);
+//                                                   st=1: EncHistogramST/EncFloatHistogramST chunks, st=0: EncHistogram/EncFloatHistogram
+//   aapp <cut> <st> <t> <view>           -> <same|new|recoded> hdr=<byte> n=<num> caller=<hist> mem=<-|cells> held=<-|idxs>
+//        view = histogram token whose span/bucket/custom-bounds fields are slice headers off+len+cap (- = nil)
+//        into the arrays: arena[off : off+len : off+cap].  All histograms of the case exist from `amem` on (the
+//        caller holds them all).  After the append: mem = cells of the arrays (anywhere, also beyond every len)
+//        that were written (s<i>:<off>:<len> | i<i>:<v> | f<i>:<bits>); held = ordinals of the caller's OTHER
+//        histograms (appended earlier or not yet) whose struct, slice headers or contents changed; caller = the
+//        appended struct now.  Replaced slices of the appended struct are then overwritten by the harness (the
+//        caller owns them; the chunk must not depend on them).
+//   ascr                                 -> ok      the caller overwrites all its arrays (every histogram over them is
+//                                                   dead from here on); the appender/chunks must not have kept any of it
 // head ops (real tsdb.DB):
 //   hcfg <chunkRange>
 //   happ <t> <hist> <cut>   -> ok new=<cut> caller=<hist> | err-…   (cut = observed: this sample started a chunk)
@@ -114,22 +127,30 @@ func layoutOp(f []string) string {
 type chunkEnv struct {
 	chunks []chunkenc.Chunk
 	app    chunkenc.Appender
+	st     bool // start-timestamp capable encodings
 }
 
-func encOf(x histkit.H) chunkenc.Encoding {
+func (e *chunkEnv) encOf(x histkit.H) chunkenc.Encoding {
 	if x.Float() {
-		return chunkenc.EncFloatHistogram
+		return chunkenc.ValFloatHistogram.ChunkEncoding(false, e.st)
 	}
-	return chunkenc.EncHistogram
+	return chunkenc.ValHistogram.ChunkEncoding(false, e.st)
 }
 
-func hdrOf(c chunkenc.Chunk) int { return int(c.Bytes()[2] & 0xC0) }
+// hdrOf returns the counter reset header bits (byte 2 of the plain chunks, byte 0 of the ST chunks).
+func hdrOf(c chunkenc.Chunk) int {
+	switch c.Encoding() {
+	case chunkenc.EncHistogramST, chunkenc.EncFloatHistogramST:
+		return int(c.Bytes()[0] & 0xC0)
+	}
+	return int(c.Bytes()[2] & 0xC0)
+}
 
-func (e *chunkEnv) appendOp(cut bool, t int64, x histkit.H) string {
+func (e *chunkEnv) appendOp(cut bool, st, t int64, x histkit.H) string {
 	var prev chunkenc.Appender
-	if len(e.chunks) == 0 || cut || e.chunks[len(e.chunks)-1].Encoding() != encOf(x) {
+	if len(e.chunks) == 0 || cut || e.chunks[len(e.chunks)-1].Encoding() != e.encOf(x) {
 		prev = e.app
-		nc, err := chunkenc.NewEmptyChunk(encOf(x))
+		nc, err := chunkenc.NewEmptyChunk(e.encOf(x))
 		if err != nil {
 			return "err-newchunk"
 		}
@@ -145,9 +166,9 @@ func (e *chunkEnv) appendOp(cut bool, t int64, x histkit.H) string {
 		err      error
 	)
 	if x.Float() {
-		newChunk, recoded, app, err = e.app.AppendFloatHistogram(prev, 0, t, x.F, false)
+		newChunk, recoded, app, err = e.app.AppendFloatHistogram(prev, st, t, x.F, false)
 	} else {
-		newChunk, recoded, app, err = e.app.AppendHistogram(prev, 0, t, x.I, false)
+		newChunk, recoded, app, err = e.app.AppendHistogram(prev, st, t, x.I, false)
 	}
 	if err != nil {
 		return "err-append"
@@ -345,6 +366,8 @@ var _ storage.Appender
 
 func runCase(c *h.Ctx, ops []string) {
 	ce := &chunkEnv{}
+	ae := &aliasEnv{}
+	ae.setup([]string{"amem", "0", "-", "-", "-"}, ops, -1) // alias ops without a heap: only all-nil histograms exist
 	de := &dbEnv{}
 	defer func() {
 		de.close()
@@ -352,7 +375,7 @@ func runCase(c *h.Ctx, ops []string) {
 			os.RemoveAll(de.dir)
 		}
 	}()
-	for _, op := range ops {
+	for oi, op := range ops {
 		f := strings.Fields(op)
 		out := "bad-op"
 		emit := op
@@ -362,8 +385,21 @@ func runCase(c *h.Ctx, ops []string) {
 				out = layoutOp(f)
 			case "capp":
 				t, _ := strconv.ParseInt(f[2], 10, 64)
-				out = ce.appendOp(f[1] == "1", t, histkit.Parse(f[3]))
+				out = ce.appendOp(f[1] == "1", 0, t, histkit.Parse(f[3]))
 				c.Count("capp:" + strings.Fields(out)[0])
+			case "amem":
+				out = ae.setup(f, ops, oi)
+				ce.st = len(f) > 1 && f[1] == "1"
+			case "ascr":
+				out = ae.scribbleAll()
+			case "aapp":
+				st, _ := strconv.ParseInt(f[2], 10, 64)
+				t, _ := strconv.ParseInt(f[3], 10, 64)
+				out = ae.appendOp(c, ce, oi, f[1] == "1", st, t)
+				c.Count("aapp:" + strings.Fields(out)[0])
+				if len(ce.chunks) > 0 {
+					c.Count("aapp:enc:" + ce.chunks[len(ce.chunks)-1].Encoding().String())
+				}
 			case "creload":
 				out = ce.reload()
 			case "cread":
@@ -721,6 +757,13 @@ func main() {
 	if c.Tier == "thorough" {
 		maxLen = 220
 	}
+	// directed alias cases first (independent of the seed)
+	for i := 0; i < numDirected; i++ {
+		ops := directedAlias(i, c.Count)
+		c.Case(fmt.Sprintf("D%d", i))
+		c.NonTrivial(strings.Join(ops, ";"))
+		runCase(c, ops)
+	}
 	for i := 0; i < c.N; i++ {
 		r := c.Rng.Fork()
 		var ops []string
@@ -734,6 +777,14 @@ func main() {
 			ops, id = genHeadCase(c, r, maxLen), fmt.Sprintf("H%d", i)
 		}
 		c.Case(id)
+		c.NonTrivial(strings.Join(ops, ";"))
+		runCase(c, ops)
+	}
+	// generated alias cases (after the others, so that those keep their random streams)
+	for i := 0; i < c.N/3; i++ {
+		r := c.Rng.Fork()
+		ops := genAliasCase(c, r, maxLen)
+		c.Case(fmt.Sprintf("A%d", i))
 		c.NonTrivial(strings.Join(ops, ";"))
 		runCase(c, ops)
 	}
